@@ -1,6 +1,7 @@
 from abc import abstractmethod
 from typing import Any, Hashable, Sequence
 
+import numpy as np
 from numpy.random import Generator
 from typing_extensions import Self
 
@@ -305,6 +306,7 @@ class BaseModelCrossSet(BaseModel):
         # Preprocess data
         X = self.preprocessor1.fit_transform(X, self.sample_dims, weights_X)
         Y = self.preprocessor2.fit_transform(Y, self.sample_dims, weights_Y)
+        self._check_dropped_samples_match(X, Y)
         # Perform PCA
         X = self.pca1.fit_transform(X)
         Y = self.pca2.fit_transform(Y)
@@ -544,6 +546,18 @@ class BaseModelCrossSet(BaseModel):
             sample_name=self.sample_name,
             feature_name=self.feature_name,
         )
+
+    def _check_dropped_samples_match(self, X: DataArray, Y: DataArray) -> None:
+        """Samples removed because they are NaN throughout must be the same (by position) in X and Y."""
+        kept = []
+        for prep, data in zip((self.preprocessor1, self.preprocessor2), (X, Y)):
+            all_samples = prep.sanitizer.transformers[0].sample_coords.values
+            kept.append(np.isin(all_samples, data.coords[self.sample_name].values))
+        if kept[0].shape == kept[1].shape and (kept[0] != kept[1]).any():
+            raise ValueError(
+                "X and Y have all-NaN samples at different positions. Remove these samples from both "
+                "fields before fitting."
+            )
 
     def _augment_data(self, X: DataArray, Y: DataArray) -> tuple[DataArray, DataArray]:
         """Optional method to augment the data before fitting."""
